@@ -20,6 +20,10 @@ def srcdir(context):
 @builtin.function(context='toolchain')
 def target_platform(context, platform=None, arch=None):
     env = context.env
+    if arch is None:
+        # Default to the architecture of the host we configured on (which is
+        # saved), not of whatever process happens to be regenerating.
+        arch = env.host_platform.arch
     env.target_platform = platforms.target.platform_info(platform, arch)
 
 
